@@ -102,7 +102,7 @@ func worker(args []string) {
 	rt := 30 + r.IntN(50)
 	out.ReadTimeoutMs = rt
 	st.SetReadTimeout(time.Duration(rt) * time.Millisecond)
-	src, err := snapgen.NewSource(work, r)
+	src, err := snapgen.NewSource(work, rand.New(rand.NewPCG(uint64(seed)+7, uint64(caseNo)+1)))
 	if err != nil {
 		out.SetupErr = err.Error()
 		return
@@ -139,7 +139,8 @@ func worker(args []string) {
 	stop := make(chan struct{})
 	var wg sync.WaitGroup
 
-	// ---- creator ----
+	// ---- creator (own PRNG: r is not shared between goroutines) ----
+	cr := rand.New(rand.NewPCG(uint64(seed)+13, uint64(caseNo)+2))
 	var index uint64
 	create := func() error {
 		index++
@@ -147,14 +148,14 @@ func worker(args []string) {
 		if err != nil {
 			return err
 		}
-		if err := src.Mutate(2 + r.IntN(6)); err != nil {
+		if err := src.Mutate(2 + cr.IntN(6)); err != nil {
 			return err
 		}
 		sink, err := st.Create(1, index, 1, snapgen.Config(), 1, nil)
 		if err != nil {
 			return err
 		}
-		full := due == snapshot.Full || r.IntN(4) == 0
+		full := due == snapshot.Full || cr.IntN(4) == 0
 		stateFile := filepath.Join(work, fmt.Sprintf("state-%d.db", index))
 		if full {
 			fullFile := filepath.Join(work, fmt.Sprintf("full-%d.db", index))
@@ -220,7 +221,7 @@ func worker(args []string) {
 				problem("creator-error", "snapshot creation failed: %v", err)
 				return
 			}
-			time.Sleep(time.Duration(5+r.IntN(60)) * time.Millisecond)
+			time.Sleep(time.Duration(5+cr.IntN(60)) * time.Millisecond)
 		}
 	}()
 
